@@ -50,6 +50,17 @@ META = dict(
                'values and written flavors. Strings of 0-400 characters with '
                'quotes, apostrophes, backslashes, all C0 controls, words '
                'longer than the line and escapes swept over the fold column. '
+               'References hold instance paths and class paths; arrays of '
+               'every element kind (incl. embedded instances) may be empty '
+               'and hold NULL entries. The compiler of a case is used on: '
+               'schemas of string constants written by hand (several '
+               'adjacent literals, every character raw or in any DSP0004 '
+               'escape form incl. \\x/\\X with 1-4 digits ending at a literal '
+               'joint, before non-ASCII digits, comments between literals) '
+               'whose value the harness knows; and histories in one '
+               'namespace (declarations compiled from their tomof() text, '
+               'used, declared again with other types/flavors, used again), '
+               'decided differentially against a compiler without history. '
                'Held-on-K-executions evidence, not a proof.',
     level_note='Trusted: the projection in vf/mofgen.py (what the statement '
                'lists), the harness escaper ref_escape (transcribes the '
@@ -57,7 +68,8 @@ META = dict(
                'the store that returns compiled objects unchanged.',
     design_ref='DESIGN.md section 3, C08',
     rule='case = one generated schema; evaluation = one object (qualifier '
-         'declaration, class or instance) x one maxline; non-trivial if its '
+         'declaration, class or instance) x one maxline, or one schema of '
+         '12 hand-written string constants; non-trivial if its '
          'MOF holds a folded string, an escape sequence, an array or >= 3 '
          'elements; distinct by hash of the MOF text',
     assumptions=[
@@ -69,7 +81,11 @@ META = dict(
         'default values in class declarations, parameter values, the '
         'toinstance flavor',
         'reference values use string, integer and boolean keys only (typed '
-        'keys in WBEM URIs are C07)',
+        'keys in WBEM URIs are C07); a key reference holds an instance '
+        'path (keybindings cannot hold a class path)',
+        'qualifier values carry the flavors of their declaration: compared '
+        'where the declaration defines overridable/tosubclass (and '
+        'translatable when true)',
         'real32 values are compared as float32',
     ],
     min_eval=2000, min_distinct=500,
@@ -262,10 +278,12 @@ def attempt(ctx, env, kind, obj, decls, classes, maxline, ns=None):
     for path, a, b in pdiff(e, g, limit=40):
         key = classify_leaf(path, a, b)
         if key is None and kind == 'instance' and a == ('list',) and \
-                b is None and '/property:' in path and \
-                obj.properties[path.rsplit('/property:', 1)[1].split('/')[0]
-                               ].embedded_object:
-            key = 'mof.embedded-array.empty.compiled-to-null'
+                b is None and path.count('/property:') == 1:
+            # (a property of the instance itself, not of an embedded one)
+            name = path.split('/property:')[1].split('/')[0]
+            if name in obj.properties and \
+                    obj.properties[name].embedded_object:
+                key = 'mof.embedded-array.empty.compiled-to-null'
         if key:
             att.known.append((key, path, a, b))
         else:
@@ -501,7 +519,8 @@ def run_object(ctx, envbox, kind, obj, decls, classes, maxline, tags,
     # ---- value kinds: does the failure go away (or change) without them? --
     if kind != 'qualifierdecl':
         cur = obj
-        for name, neutral in (
+        # (twice: the compiler reports the first offending property only)
+        for name, neutral in 2 * (
                 ('mof.reference.class-path', mofgen.without_class_paths),
                 ('mof.embedded-array.null-entry',
                  mofgen.without_null_embedded_entries)):
